@@ -631,6 +631,11 @@ FairSpec ==
   /\ SF_vars(AcceptSingle \/ IncomingNext)
   /\ WF_vars(DgKernelPrefetch("b"))
 
+FairListen ==
+  /\ SpecListen
+  /\ WF_vars(\E c \in Conns : Establish(c)) /\ WF_vars(KernelAccept)
+  /\ SF_vars(AcceptSingle \/ IncomingNext)
+
 -----------------------------------------------------------------------------
 (* ------------------------------- properties ------------------------------- *)
 
